@@ -872,4 +872,251 @@ theorem liu_least (nc : Nat) (nbrs : Nat → List Nat) :
     · omega
     · exact e
 
+/-! ### Part D: the elimination game -/
+
+/-- `n`-by-`n` Boolean matrix -/
+def Sq (n : Nat) (g : Array (Array Bool)) : Prop := g.size = n ∧ ∀ i, i < n → (g.getD i #[]).size = n
+
+theorem adjSet_sq {n : Nat} {g : Array (Array Bool)} (h : Sq n g) (i j : Nat) : Sq n (adjSet g i j) := by
+  unfold adjSet
+  refine ⟨by simpa using h.1, fun a ha => ?_⟩
+  rw [getD_setIfInBounds']
+  split
+  · rename_i hc
+    simp only [Array.size_setIfInBounds]
+    exact h.2 i (hc.1 ▸ ha)
+  · exact h.2 a ha
+
+theorem adjGet_adjSet {n : Nat} {g : Array (Array Bool)} (h : Sq n g) {i j : Nat} (hi : i < n) (hj : j < n)
+    (a b : Nat) : adjGet (adjSet g i j) a b = true ↔ adjGet g a b = true ∨ (a = i ∧ b = j) := by
+  unfold adjGet adjSet
+  rw [getD_setIfInBounds']
+  by_cases e : a = i
+  · subst e
+    rw [if_pos ⟨rfl, by rw [h.1]; exact hi⟩, getD_setIfInBounds']
+    by_cases e2 : b = j
+    · subst e2
+      rw [if_pos ⟨rfl, by rw [h.2 a hi]; exact hj⟩]
+      simp
+    · rw [if_neg (fun c => e2 c.1)]
+      simp [e2]
+  · rw [if_neg (fun c => e c.1)]
+    simp [e]
+
+theorem fill_inner {n i : Nat} (hi : i < n) (l2 : List Nat) (hl2 : ∀ x ∈ l2, x < n) :
+    ∀ g, Sq n g →
+      Sq n (l2.foldl (fun g j => if i ≠ j then adjSet g i j else g) g) ∧
+      ∀ a b, adjGet (l2.foldl (fun g j => if i ≠ j then adjSet g i j else g) g) a b = true ↔
+        adjGet g a b = true ∨ (a = i ∧ b ∈ l2 ∧ a ≠ b) := by
+  induction l2 with
+  | nil => intro g hg; exact ⟨hg, fun a b => by simp⟩
+  | cons x xs ih =>
+    intro g hg
+    rw [List.foldl_cons]
+    have hx : x < n := hl2 x List.mem_cons_self
+    have hxs : ∀ y ∈ xs, y < n := fun y hy => hl2 y (List.mem_cons_of_mem _ hy)
+    by_cases e : i ≠ x
+    · rw [if_pos e]
+      obtain ⟨s, k⟩ := ih hxs _ (adjSet_sq hg i x)
+      refine ⟨s, fun a b => ?_⟩
+      rw [k a b, adjGet_adjSet hg hi hx]
+      constructor
+      · rintro ((h | ⟨h1, h2⟩) | ⟨h1, h2, h3⟩)
+        · exact Or.inl h
+        · exact Or.inr ⟨h1, by rw [h2]; exact List.mem_cons_self, by rw [h1, h2]; exact e⟩
+        · exact Or.inr ⟨h1, List.mem_cons_of_mem _ h2, h3⟩
+      · rintro (h | ⟨h1, h2, h3⟩)
+        · exact Or.inl (Or.inl h)
+        · rcases List.mem_cons.mp h2 with h2 | h2
+          · exact Or.inl (Or.inr ⟨h1, h2⟩)
+          · exact Or.inr ⟨h1, h2, h3⟩
+    · rw [if_neg e]
+      have e' : i = x := by by_contra c; exact e c
+      obtain ⟨s, k⟩ := ih hxs _ hg
+      refine ⟨s, fun a b => ?_⟩
+      rw [k a b]
+      constructor
+      · rintro (h | ⟨h1, h2, h3⟩)
+        · exact Or.inl h
+        · exact Or.inr ⟨h1, List.mem_cons_of_mem _ h2, h3⟩
+      · rintro (h | ⟨h1, h2, h3⟩)
+        · exact Or.inl h
+        · rcases List.mem_cons.mp h2 with h2 | h2
+          · exfalso; apply h3; rw [h1, h2, e']
+          · exact Or.inr ⟨h1, h2, h3⟩
+
+theorem fill_outer {n : Nat} (l1 l2 : List Nat) (hl1 : ∀ x ∈ l1, x < n) (hl2 : ∀ x ∈ l2, x < n) :
+    ∀ g, Sq n g →
+      Sq n (l1.foldl (fun g i => l2.foldl (fun g j => if i ≠ j then adjSet g i j else g) g) g) ∧
+      ∀ a b, adjGet (l1.foldl (fun g i => l2.foldl (fun g j => if i ≠ j then adjSet g i j else g) g) g) a b
+          = true ↔ adjGet g a b = true ∨ (a ∈ l1 ∧ b ∈ l2 ∧ a ≠ b) := by
+  induction l1 with
+  | nil => intro g hg; exact ⟨hg, fun a b => by simp⟩
+  | cons x xs ih =>
+    intro g hg
+    rw [List.foldl_cons]
+    have hx : x < n := hl1 x List.mem_cons_self
+    have hxs : ∀ y ∈ xs, y < n := fun y hy => hl1 y (List.mem_cons_of_mem _ hy)
+    obtain ⟨s1, k1⟩ := fill_inner hx l2 hl2 g hg
+    obtain ⟨s, k⟩ := ih hxs _ s1
+    refine ⟨s, fun a b => ?_⟩
+    rw [k a b, k1 a b]
+    constructor
+    · rintro ((h | ⟨h1, h2, h3⟩) | ⟨h1, h2, h3⟩)
+      · exact Or.inl h
+      · exact Or.inr ⟨by rw [h1]; exact List.mem_cons_self, h2, h3⟩
+      · exact Or.inr ⟨List.mem_cons_of_mem _ h1, h2, h3⟩
+    · rintro (h | ⟨h1, h2, h3⟩)
+      · exact Or.inl (Or.inl h)
+      · rcases List.mem_cons.mp h1 with h1 | h1
+        · exact Or.inl (Or.inr ⟨h1, h2, h3⟩)
+        · exact Or.inr ⟨h1, h2, h3⟩
+
+/-- the first element of a filtered `range` is the least index satisfying the predicate -/
+theorem headD_filter_range (n : Nat) (p : Nat → Bool) :
+    (((List.range n).filter p).headD n = n ∧ ∀ i, i < n → p i = false) ∨
+    (((List.range n).filter p).headD n < n ∧ p (((List.range n).filter p).headD n) = true ∧
+      ∀ i, i < ((List.range n).filter p).headD n → p i = false) := by
+  have hpw : ((List.range n).filter p).Pairwise (· < ·) := List.Pairwise.filter _ List.pairwise_lt_range
+  cases h : (List.range n).filter p with
+  | nil =>
+    left
+    refine ⟨rfl, fun i hi => ?_⟩
+    have : i ∉ (List.range n).filter p := by rw [h]; simp
+    rw [List.mem_filter] at this
+    cases hp : p i with
+    | false => rfl
+    | true => exact absurd ⟨List.mem_range.mpr hi, hp⟩ this
+  | cons x t =>
+    right
+    have hx : x ∈ (List.range n).filter p := by rw [h]; exact List.mem_cons_self
+    rw [List.mem_filter, List.mem_range] at hx
+    refine ⟨hx.1, hx.2, fun i hi => ?_⟩
+    simp only [List.headD_cons] at hi
+    cases hp : p i with
+    | false => rfl
+    | true =>
+      exfalso
+      have hm : i ∈ (List.range n).filter p :=
+        List.mem_filter.mpr ⟨List.mem_range.mpr (by omega), hp⟩
+      rw [h] at hm hpw
+      rcases List.mem_cons.mp hm with e | e
+      · omega
+      · have := (List.pairwise_cons.mp hpw).1 i e
+        omega
+
+/-- one elimination step -/
+def estep (n : Nat) (gp : Array (Array Bool) × Array Nat) (v : Nat) : Array (Array Bool) × Array Nat :=
+  let nb := (List.range n).filter fun i => decide (i > v) && adjGet gp.1 i v
+  (nb.foldl (fun g i => nb.foldl (fun g j => if i ≠ j then adjSet g i j else g) g) gp.1,
+   gp.2.push (nb.headD n))
+
+theorem etreeOfGraph_eq (n : Nat) (g0 : Array (Array Bool)) :
+    etreeOfGraph n g0 = ((List.range n).foldl (estep n) (g0, #[])).2 := rfl
+
+/-- state of the elimination game before vertex `v`: among the vertices `≥ v` the matrix holds the
+edges of the elimination graph (walks with interior `< v`), and the parents found so far are right -/
+def DInv (E : Nat → Nat → Prop) (n v : Nat) (gp : Array (Array Bool) × Array Nat) : Prop :=
+  Sq n gp.1 ∧ gp.2.size = v ∧
+  (∀ i j, v ≤ i → v ≤ j → i < n → j < n → (adjGet gp.1 i j = true ↔ i ≠ j ∧ T E v i j)) ∧
+  ∀ u, u < v → Least (fun i => T E u i u) n u (gp.2.getD u 0)
+
+theorem push_getD (a : Array Nat) (x u : Nat) :
+    (a.push x).getD u 0 = if u < a.size then a.getD u 0 else if u = a.size then x else 0 := by
+  simp only [Array.getD_eq_getD_getElem?, Array.getElem?_push]
+  by_cases h1 : u < a.size
+  · have : u ≠ a.size := by omega
+    simp [h1, this]
+  · by_cases h2 : u = a.size
+    · simp [h2]
+    · have : a.size ≤ u := by omega
+      simp [h1, h2, this]
+
+theorem estep_inv {E : Nat → Nat → Prop} (hEs : ∀ a b, E a b → E b a) {n v : Nat} (hv : v < n)
+    {gp : Array (Array Bool) × Array Nat} (h : DInv E n v gp) : DInv E n (v + 1) (estep n gp v) := by
+  obtain ⟨hsq, hsz, hadj, hpar⟩ := h
+  have hmem : ∀ x, x ∈ (List.range n).filter (fun i => decide (i > v) && adjGet gp.1 i v) ↔
+      x < n ∧ v < x ∧ T E v x v := by
+    intro x
+    rw [List.mem_filter, List.mem_range, Bool.and_eq_true, decide_eq_true_eq]
+    constructor
+    · rintro ⟨h1, h2, h3⟩
+      exact ⟨h1, h2, ((hadj x v (by omega) (Nat.le_refl _) h1 hv).mp h3).2⟩
+    · rintro ⟨h1, h2, h3⟩
+      exact ⟨h1, h2, (hadj x v (by omega) (Nat.le_refl _) h1 hv).mpr ⟨by omega, h3⟩⟩
+  have hlt : ∀ x ∈ (List.range n).filter (fun i => decide (i > v) && adjGet gp.1 i v), x < n :=
+    fun x hx => ((hmem x).mp hx).1
+  obtain ⟨s, k⟩ := fill_outer _ _ hlt hlt gp.1 hsq
+  unfold estep
+  refine ⟨s, by simp [hsz], ?_, ?_⟩
+  · intro i j hi hj hin hjn
+    show adjGet (List.foldl _ gp.1 _) i j = true ↔ _
+    rw [k i j, hmem, hmem, hadj i j (by omega) (by omega) hin hjn]
+    constructor
+    · rintro (⟨h1, h2⟩ | ⟨⟨_, _, h1⟩, ⟨_, _, h2⟩, h3⟩)
+      · exact ⟨h1, T.mono (Nat.le_succ _) h2⟩
+      · exact ⟨h3, T.via (T.mono (Nat.le_succ _) h1) (Nat.lt_succ_self _)
+          (T.mono (Nat.le_succ _) (T.symm hEs h2))⟩
+    · rintro ⟨h1, h2⟩
+      rcases T.split h2 with e | ⟨e1, e2⟩
+      · exact Or.inl ⟨h1, e⟩
+      · have e1' : T E v i v := by
+          rcases e1 with e | e
+          · omega
+          · exact e
+        have e2' : T E v v j := by
+          rcases e2 with e | e
+          · omega
+          · exact e
+        exact Or.inr ⟨⟨hin, by omega, e1'⟩, ⟨hjn, by omega, T.symm hEs e2'⟩, h1⟩
+  · intro u hu
+    show Least _ n u ((gp.2.push _).getD u 0)
+    rw [push_getD, hsz]
+    by_cases huv : u < v
+    · rw [if_pos huv]; exact hpar u huv
+    · have e : u = v := by omega
+      rw [if_neg huv, if_pos e, e]
+      rcases headD_filter_range n (fun i => decide (i > v) && adjGet gp.1 i v) with ⟨h1, h2⟩ | ⟨h1, h2, h3⟩
+      · left
+        refine ⟨h1, fun i hvi hin ht => ?_⟩
+        have := h2 i hin
+        have hm := (hmem i).mpr ⟨hin, hvi, ht⟩
+        rw [List.mem_filter] at hm
+        rw [hm.2] at this
+        exact absurd this (by simp)
+      · right
+        generalize ((List.range n).filter (fun i => decide (i > v) && adjGet gp.1 i v)).headD n = x
+          at h1 h2 h3
+        have hx : x ∈ (List.range n).filter (fun i => decide (i > v) && adjGet gp.1 i v) :=
+          List.mem_filter.mpr ⟨List.mem_range.mpr h1, h2⟩
+        obtain ⟨_, hx2, hx3⟩ := (hmem x).mp hx
+        refine ⟨hx2, h1, hx3, fun i hvi hix ht => ?_⟩
+        have := h3 i hix
+        have hm := (hmem i).mpr ⟨by omega, hvi, ht⟩
+        rw [List.mem_filter] at hm
+        rw [hm.2] at this
+        exact absurd this (by simp)
+
+/-- **What the elimination game computes**: on an `n`-by-`n` symmetric irreflexive adjacency matrix,
+`parent[v]` is the least later vertex joined to `v` by a walk through vertices `< v`. -/
+theorem etreeOfGraph_least {E : Nat → Nat → Prop} (hEs : ∀ a b, E a b → E b a)
+    (hEi : ∀ a b, E a b → a ≠ b) (n : Nat) (g0 : Array (Array Bool)) (hsq : Sq n g0)
+    (hg : ∀ i j, i < n → j < n → (adjGet g0 i j = true ↔ E i j)) :
+    (etreeOfGraph n g0).size = n ∧
+    ∀ v, v < n → Least (fun i => T E v i v) n v ((etreeOfGraph n g0).getD v 0) := by
+  rw [etreeOfGraph_eq]
+  have key := foldl_range_inv (fun k gp => DInv E n k gp) (estep n) n (g0, #[])
+    (by
+      refine ⟨hsq, rfl, ?_, fun u hu => by omega⟩
+      intro i j _ _ hi hj
+      rw [hg i j hi hj]
+      constructor
+      · intro e; exact ⟨hEi i j e, T.edge e⟩
+      · rintro ⟨_, e⟩
+        cases e with
+        | edge e => exact e
+        | via _ hw _ => omega)
+    (fun gp v hv h => estep_inv hEs hv h)
+  exact ⟨key.2.1, key.2.2.2⟩
+
 end Slu.Order
